@@ -3,5 +3,7 @@ CONSTANTS
  KnownErase = FALSE
  KnownGJKR = FALSE
  KnownWithheld = FALSE
+ KnownStop = FALSE
+ KeygenStrict = TRUE
 POSTCONDITION Accepted
 CHECK_DEADLOCK FALSE
